@@ -1,5 +1,5 @@
 CONSTANTS
-  Names = {"a", "b", "c"}
+  Names = {"a", "ab", "c"}
   MaxDepth = 4
 SPECIFICATION Spec
 INVARIANTS Shape RoundTrip DotDotCount InputsClean
